@@ -56,6 +56,16 @@ m = {
          "kind_free_text": "content-hashed build of sanitizer flavours of the library from /repo's working tree"},
         {"name": "galloc", "path": "engine/galloc.hpp", "serves_properties": [c["property_id"] for c in checks],
          "kind_free_text": "guarded counting aws_allocator (canaries, live table, release observer)"},
+        {"name": "detsched", "path": "engine/detsched/detsched.cpp", "serves_properties": ["C03", "C08", "C14", "C15", "C17", "C20"],
+         "kind_free_text": "controlled scheduler: real pthreads run one at a time, decision points at lock / condition variable / create / join / "
+                           "atomic / clock operations (link-time --wrap + a force-included atomics header), generated schedules, virtual clock, "
+                           "deadlock / hang verdicts"},
+        {"name": "race", "path": "engine/build.py", "serves_properties": ["C03", "C08", "C14", "C15", "C17", "C20"],
+         "kind_free_text": "tsan flavour: the *_race harnesses run generated programs on free-running threads under ThreadSanitizer; "
+                           "race_oracle targets are not shrunk and are reported when 2 of up to 12 replays show the report"},
+        {"name": "fuzz", "path": "engine/fuzz.hpp", "serves_properties": ["C04", "C05"],
+         "kind_free_text": "libFuzzer targets with the oracle inside the target (views inside the input, error raised on failure, exact heap copies), "
+                           "dictionaries and coverage-grown seed corpora under corpus/"},
     ] + T.EXTRA_ENGINES,
     "checks": checks,
     "not_applicable": na,
